@@ -12,14 +12,14 @@
      c03_strict_in_permissive_partial   strict-accepted => permissive-accepted with the same type and capabilities
    "partial" = the syntactic fragment TypecheckMain.in_fragment:
      literals, variables, && and || with full capability flow (union / intersection, short-circuit singleton
-     typing), !, ==, if-then-else with singleton short-circuit typing and capability flow (branches boolean-rooted),
+     typing), !, ==, if-then-else with singleton short-circuit typing and capability flow (branches: any boolean-rooted form of the fragment),
      `has` and `.` on access paths (variable followed by attribute selections) over records AND entities:
      required / optional attributes, optional ones behind capabilities, nested records, entity-typed attributes,
      open / closed types, absent entities; integer arithmetic (+, -, *, unary -: value or overflow); < and <=
      (longs, datetime, duration); like; is; isEmpty, contains, containsAll, containsAny.
    Not in the fragment (see notes/C03.md): attribute access on non-path expressions, non-boolean `if` branches,
    tags, in, extension calls, set and record literals. *)
-From Cedar Require Import Typecheck ConformProofs ExprEq TypecheckProofs TypecheckProofs2 TypecheckProofs3 TypecheckProofs4 TypecheckMain TypecheckModes TypecheckSimple TypecheckSub.
+From Cedar Require Import Typecheck ConformProofs ExprEq TypecheckProofs TypecheckProofs2 TypecheckProofs3 TypecheckProofs4 TypecheckIf TypecheckMain TypecheckModes TypecheckSimple TypecheckSub.
 
 Theorem c03_sound_partial :
   forall m sch env q es,
